@@ -10,13 +10,19 @@ export CARGO_NET_OFFLINE=true
 export VERIF_DIR="${VERIF_DIR:-$HERE}"
 cd "$HERE/harness" || exit 2
 
+# VERIF_REPO (default /repo): the source tree under test. A value other than /repo is only used by
+# background runs that must not see edits made to /repo meanwhile (vp run --with-repo).
+REPO="${VERIF_REPO:-/repo}"
+OVERRIDE=()
+if [ "$REPO" != "/repo" ]; then OVERRIDE=(--config "paths=[\"$REPO\"]"); export VERIF_REPO="$REPO"; fi
+
 build() {
     local log="$HERE/target/build.log"
     mkdir -p "$HERE/target"
-    if ! cargo build --release --offline --bin check --target-dir "$HERE/target" >"$log" 2>&1; then
+    if ! cargo build --release --offline --bin check --target-dir "$HERE/target" "${OVERRIDE[@]}" >"$log" 2>&1; then
         # a stale lock file is the only recoverable cause: retry once from the repository's lock
-        cp /repo/Cargo.lock Cargo.lock 2>/dev/null
-        if ! cargo build --release --offline --bin check --target-dir "$HERE/target" >"$log" 2>&1; then
+        cp "$REPO/Cargo.lock" Cargo.lock 2>/dev/null
+        if ! cargo build --release --offline --bin check --target-dir "$HERE/target" "${OVERRIDE[@]}" >"$log" 2>&1; then
             echo "INCONCLUSIVE: harness does not build against the current tree (see $log)"
             tail -n 30 "$log"
             return 2
